@@ -92,13 +92,13 @@ Proof. unfold grows. rewrite circuits_in_app, jobs_in_app. lia. Qed.
 Lemma run_single_grows r : forall c n,
   grows r (fst (fst (run_single r c n))) (snd (run_single r c n)).
 Proof.
-  induction r as [over nc nj|p nc nj|nc nj file inner IH]; intros c n; cbn [run_single].
+  induction r as [over nc nj|p nc nj|nc nj file pend inner IH]; intros c n; cbn [run_single].
   - destruct (n <=? 0); [apply grows_refl|]. unfold grows, n_circuits, n_jobs. cbn. lia.
   - destruct (n <=? 0); [apply grows_refl|]. destruct (cfree c); [apply grows_refl|].
     pose proof (gw_counts p nc nj c) as H.
     destruct (get_wavefunction p nc nj c) as [[nc' nj'] tr]. unfold grows, n_circuits, n_jobs. cbn in *. lia.
   - destruct (n <=? 0); [apply grows_refl|]. specialize (IH c n).
-    destruct (run_single inner c n) as [[inner' [e|m]] tr]; exact IH.
+    destruct (run_single inner c n) as [[inner' [e|m]] tr]; [|destruct (cgates c)]; exact IH.
 Qed.
 
 Lemma loop_grows cns : forall r, grows r (fst (fst (loop r cns))) (snd (loop r cns)).
@@ -111,15 +111,16 @@ Qed.
 
 Lemma run_batch_grows r : forall cs s, grows r (fst (fst (run_batch r cs s))) (snd (run_batch r cs s)).
 Proof.
-  induction r as [over nc nj|p nc nj|nc nj file inner IH]; intros cs s; cbn [run_batch].
+  induction r as [over nc nj|p nc nj|nc nj file pend inner IH]; intros cs s; cbn [run_batch].
   - destruct (validate (List.length cs) s); [apply loop_grows|apply grows_refl].
   - destruct (validate (List.length cs) s); [apply loop_grows|apply grows_refl].
-  - specialize (IH cs s). destruct (run_batch inner cs s) as [[inner' [e|ms]] tr]; exact IH.
+  - specialize (IH cs s). destruct (run_batch inner cs s) as [[inner' [e|ms]] tr];
+      [|destruct (record_batch (combine cs ms)) as [recs [|]]]; exact IH.
 Qed.
 
 Lemma dist_grows r : forall c on, grows r (fst (fst (dist r c on))) (snd (dist r c on)).
 Proof.
-  induction r as [over nc nj|p nc nj|nc nj file inner IH]; intros c on; cbn [dist].
+  induction r as [over nc nj|p nc nj|nc nj file pend inner IH]; intros c on; cbn [dist].
   - destruct on as [n|]; [|apply grows_refl].
     pose proof (run_single_grows (RBase over nc nj) c n) as H.
     destruct (run_single (RBase over nc nj) c n) as [[r' [e|m]] tr]; exact H.
@@ -128,7 +129,7 @@ Proof.
       destruct (run_single (RSim p nc nj) c n) as [[r' [e|m]] tr]; exact H.
     + pose proof (gw_counts p nc nj c) as H.
       destruct (get_wavefunction p nc nj c) as [[nc' nj'] tr]. unfold grows, n_circuits, n_jobs. cbn in *. lia.
-  - specialize (IH c on). destruct (dist inner c on) as [[inner' o] tr]. destruct o; exact IH.
+  - specialize (IH c on). destruct (dist inner c on) as [[inner' o] tr]. destruct o; try destruct (cgates c); exact IH.
 Qed.
 
 Lemma step_grows r k : grows r (st_runner (step r k)) (st_trace (step r k)).
@@ -137,10 +138,10 @@ Proof.
   - pose proof (run_single_grows r c n) as H. destruct (run_single r c n) as [[r' [e|m]] tr]; exact H.
   - pose proof (run_batch_grows r cs s) as H. destruct (run_batch r cs s) as [[r' [e|ms]] tr]; exact H.
   - apply dist_grows.
-  - destruct r as [over nc nj|p nc nj|nc nj file inner]; try apply grows_refl.
+  - destruct r as [over nc nj|p nc nj|nc nj file pend inner]; try apply grows_refl.
     pose proof (gw_counts p nc nj c) as H.
     destruct (get_wavefunction p nc nj c) as [[nc' nj'] tr]. unfold grows, n_circuits, n_jobs. cbn in *. lia.
-  - destruct r as [over nc nj|p nc nj|nc nj file inner]; try apply grows_refl.
+  - destruct r as [over nc nj|p nc nj|nc nj file pend inner]; try apply grows_refl.
     pose proof (gw_counts p nc nj c) as H.
     destruct (get_wavefunction p nc nj c) as [[nc' nj'] tr]. unfold grows, n_circuits, n_jobs. cbn in *. lia.
 Qed.
@@ -169,7 +170,7 @@ Proof. apply step_grows. Qed.
 (* a leaf stays a leaf, so for base-class runners and simulators the statement is about the runner itself *)
 Lemma run_single_leaf r c n : is_leaf r = true -> is_leaf (fst (fst (run_single r c n))) = true.
 Proof.
-  destruct r as [over nc nj|p nc nj|nc nj file inner]; cbn [run_single is_leaf]; intro H; try discriminate.
+  destruct r as [over nc nj|p nc nj|nc nj file pend inner]; cbn [run_single is_leaf]; intro H; try discriminate.
   - destruct (n <=? 0); reflexivity.
   - destruct (n <=? 0); [reflexivity|]. destruct (cfree c); [reflexivity|].
     destruct (get_wavefunction p nc nj c) as [[nc' nj'] tr]. reflexivity.
@@ -185,14 +186,14 @@ Lemma step_leaf r k : is_leaf r = true -> is_leaf (st_runner (step r k)) = true.
 Proof.
   intro H. unfold st_runner. destruct k as [c n|cs s|c on|c|c opw]; cbn [step].
   - pose proof (run_single_leaf r c n H) as H1. destruct (run_single r c n) as [[r' [e|m]] tr]; exact H1.
-  - destruct r as [over nc nj|p nc nj|nc nj file inner]; try discriminate; cbn [run_batch].
+  - destruct r as [over nc nj|p nc nj|nc nj file pend inner]; try discriminate; cbn [run_batch].
     + destruct (validate (List.length cs) s) as [ns|]; [|reflexivity].
       pose proof (loop_leaf (combine cs ns) (RBase over nc nj) eq_refl) as H1.
       destruct (loop (RBase over nc nj) (combine cs ns)) as [[r' [e|ms]] tr]; exact H1.
     + destruct (validate (List.length cs) s) as [ns|]; [|reflexivity].
       pose proof (loop_leaf (combine cs ns) (RSim p nc nj) eq_refl) as H1.
       destruct (loop (RSim p nc nj) (combine cs ns)) as [[r' [e|ms]] tr]; exact H1.
-  - destruct r as [over nc nj|p nc nj|nc nj file inner]; try discriminate; cbn [dist].
+  - destruct r as [over nc nj|p nc nj|nc nj file pend inner]; try discriminate; cbn [dist].
     + destruct on as [n|]; [|reflexivity].
       pose proof (run_single_leaf (RBase over nc nj) c n eq_refl) as H1.
       destruct (run_single (RBase over nc nj) c n) as [[r' [e|m]] tr]; exact H1.
@@ -200,9 +201,9 @@ Proof.
       * pose proof (run_single_leaf (RSim p nc nj) c n eq_refl) as H1.
         destruct (run_single (RSim p nc nj) c n) as [[r' [e|m]] tr]; exact H1.
       * destruct (get_wavefunction p nc nj c) as [[nc' nj'] tr]. reflexivity.
-  - destruct r as [over nc nj|p nc nj|nc nj file inner]; try discriminate; [reflexivity|].
+  - destruct r as [over nc nj|p nc nj|nc nj file pend inner]; try discriminate; [reflexivity|].
     destruct (get_wavefunction p nc nj c) as [[nc' nj'] tr]. reflexivity.
-  - destruct r as [over nc nj|p nc nj|nc nj file inner]; try discriminate; [reflexivity|].
+  - destruct r as [over nc nj|p nc nj|nc nj file pend inner]; try discriminate; [reflexivity|].
     destruct (get_wavefunction p nc nj c) as [[nc' nj'] tr]. reflexivity.
 Qed.
 Lemma final_leaf ks : forall r, is_leaf r = true -> is_leaf (final r ks) = true.
@@ -229,12 +230,12 @@ Qed.
 
 Lemma run_single_mono r : forall c n, cle (all_counters r) (all_counters (fst (fst (run_single r c n)))).
 Proof.
-  induction r as [over nc nj|p nc nj|nc nj file inner IH]; intros c n; cbn [run_single].
+  induction r as [over nc nj|p nc nj|nc nj file pend inner IH]; intros c n; cbn [run_single].
   - destruct (n <=? 0); [apply cle_refl|]. cbn. constructor; [unfold pair_le; cbn; lia|constructor].
   - destruct (n <=? 0); [apply cle_refl|]. destruct (cfree c); [apply cle_refl|].
     rewrite gw_spec. cbn. constructor; [unfold pair_le; cbn; lia|constructor].
   - destruct (n <=? 0); [apply cle_refl|]. specialize (IH c n).
-    destruct (run_single inner c n) as [[inner' [e|m]] tr]; cbn [fst all_counters] in *;
+    destruct (run_single inner c n) as [[inner' [e|m]] tr]; [|destruct (cgates c)]; cbn [fst all_counters] in *;
       (constructor; [unfold pair_le; cbn; lia|exact IH]).
 Qed.
 
@@ -248,16 +249,17 @@ Qed.
 
 Lemma run_batch_mono r : forall cs s, cle (all_counters r) (all_counters (fst (fst (run_batch r cs s)))).
 Proof.
-  induction r as [over nc nj|p nc nj|nc nj file inner IH]; intros cs s; cbn [run_batch].
+  induction r as [over nc nj|p nc nj|nc nj file pend inner IH]; intros cs s; cbn [run_batch].
   - destruct (validate (List.length cs) s); [apply loop_mono|apply cle_refl].
   - destruct (validate (List.length cs) s); [apply loop_mono|apply cle_refl].
-  - specialize (IH cs s). destruct (run_batch inner cs s) as [[inner' [e|ms]] tr]; cbn [fst all_counters] in *;
+  - specialize (IH cs s). destruct (run_batch inner cs s) as [[inner' [e|ms]] tr];
+      [|destruct (record_batch (combine cs ms)) as [recs [|]]]; cbn [fst all_counters] in *;
       (constructor; [unfold pair_le; cbn; lia|exact IH]).
 Qed.
 
 Lemma dist_mono r : forall c on, cle (all_counters r) (all_counters (fst (fst (dist r c on)))).
 Proof.
-  induction r as [over nc nj|p nc nj|nc nj file inner IH]; intros c on; cbn [dist].
+  induction r as [over nc nj|p nc nj|nc nj file pend inner IH]; intros c on; cbn [dist].
   - destruct on as [n|]; [|apply cle_refl].
     pose proof (run_single_mono (RBase over nc nj) c n) as H.
     destruct (run_single (RBase over nc nj) c n) as [[r' [e|m]] tr]; exact H.
@@ -266,7 +268,7 @@ Proof.
       destruct (run_single (RSim p nc nj) c n) as [[r' [e|m]] tr]; exact H.
     + rewrite gw_spec. cbn. constructor; [unfold pair_le; cbn; lia|constructor].
   - specialize (IH c on). destruct (dist inner c on) as [[inner' o] tr]. cbn [fst] in IH.
-    destruct o; cbn [fst all_counters]; (constructor; [unfold pair_le; cbn; lia|exact IH]).
+    destruct o; try destruct (cgates c); cbn [fst all_counters]; (constructor; [unfold pair_le; cbn; lia|exact IH]).
 Qed.
 
 Lemma step_mono r k : cle (all_counters r) (all_counters (st_runner (step r k))).
@@ -275,9 +277,9 @@ Proof.
   - pose proof (run_single_mono r c n) as H. destruct (run_single r c n) as [[r' [e|m]] tr]; exact H.
   - pose proof (run_batch_mono r cs s) as H. destruct (run_batch r cs s) as [[r' [e|ms]] tr]; exact H.
   - apply dist_mono.
-  - destruct r as [over nc nj|p nc nj|nc nj file inner]; try apply cle_refl.
+  - destruct r as [over nc nj|p nc nj|nc nj file pend inner]; try apply cle_refl.
     rewrite gw_spec. cbn. constructor; [unfold pair_le; cbn; lia|constructor].
-  - destruct r as [over nc nj|p nc nj|nc nj file inner]; try apply cle_refl.
+  - destruct r as [over nc nj|p nc nj|nc nj file pend inner]; try apply cle_refl.
     rewrite gw_spec. cbn. constructor; [unfold pair_le; cbn; lia|constructor].
 Qed.
 
@@ -341,26 +343,27 @@ Qed.
 
 Lemma run_single_invalid r c n : n <= 0 -> run_single r c n = (r, inl ValueError, []).
 Proof.
-  intro H. destruct r as [over nc nj|p nc nj|nc nj file inner]; cbn [run_single];
+  intro H. destruct r as [over nc nj|p nc nj|nc nj file pend inner]; cbn [run_single];
     destruct (Z.leb_spec n 0); try lia; reflexivity.
 Qed.
 
 Lemma run_batch_invalid cs s : bad_spec (List.length cs) s -> forall r,
   exists r', run_batch r cs s = (r', inl ValueError, []) /\
-             leaf_of r' = leaf_of r /\ files r' = files r /\ (is_leaf r = true -> r' = r).
+             leaf_of r' = leaf_of r /\ files r' = files r /\ pendings r' = pendings r /\ (is_leaf r = true -> r' = r).
 Proof.
-  intros Hbad. induction r as [over nc nj|p nc nj|nc nj file inner IH]; cbn [run_batch].
+  intros Hbad. induction r as [over nc nj|p nc nj|nc nj file pend inner IH]; cbn [run_batch].
   - rewrite (validate_bad _ _ Hbad). eexists. repeat split.
   - rewrite (validate_bad _ _ Hbad). eexists. repeat split.
-  - destruct IH as (inner' & E & Hl & Hf & _). rewrite E. eexists. repeat split; cbn [leaf_of files is_leaf].
+  - destruct IH as (inner' & E & Hl & Hf & Hq & _). rewrite E. eexists. repeat split; cbn [leaf_of files pendings is_leaf].
     + exact Hl.
     + rewrite Hf. reflexivity.
+    + rewrite Hq. reflexivity.
     + discriminate.
 Qed.
 
 Lemma dist_invalid r : forall c n, n <= 0 -> dist r c (Some n) = (r, OErr ValueError, []).
 Proof.
-  induction r as [over nc nj|p nc nj|nc nj file inner IH]; intros c n H; cbn [dist].
+  induction r as [over nc nj|p nc nj|nc nj file pend inner IH]; intros c n H; cbn [dist].
   - rewrite run_single_invalid by exact H. reflexivity.
   - rewrite run_single_invalid by exact H. reflexivity.
   - rewrite IH by exact H. reflexivity.
@@ -369,12 +372,13 @@ Qed.
 Lemma reject_first r k : invalid_args k ->
   st_outcome (step r k) = OErr ValueError /\ st_trace (step r k) = [] /\
   leaf_of (st_runner (step r k)) = leaf_of r /\ files (st_runner (step r k)) = files r /\
+  pendings (st_runner (step r k)) = pendings r /\
   (is_leaf r = true -> st_runner (step r k) = r) /\
   match k with Batch _ _ => True | _ => st_runner (step r k) = r end.
 Proof.
   unfold st_outcome, st_trace, st_runner. destruct k as [c n|cs s|c [n|]|c|c opw]; cbn [invalid_args step]; intro H; try contradiction.
   - rewrite run_single_invalid by exact H. repeat split.
-  - destruct (run_batch_invalid cs s H r) as (r' & E & Hl & Hf & Hr). rewrite E. cbn [fst snd]. repeat split; assumption.
+  - destruct (run_batch_invalid cs s H r) as (r' & E & Hl & Hf & Hq & Hr). rewrite E. cbn [fst snd]. repeat split; assumption.
   - rewrite dist_invalid by exact H. repeat split.
 Qed.
 
@@ -382,7 +386,7 @@ Qed.
 Lemma dist_none_base r : forall c, (exists over nc nj, leaf_of r = RBase over nc nj) ->
   dist r c None = (r, OErr ValueError, []).
 Proof.
-  induction r as [over nc nj|p nc nj|nc nj file inner IH]; intros c (o & a & b & H); cbn [dist leaf_of] in *.
+  induction r as [over nc nj|p nc nj|nc nj file pend inner IH]; intros c (o & a & b & H); cbn [dist leaf_of] in *.
   - reflexivity.
   - discriminate.
   - rewrite IH by (do 3 eexists; exact H). reflexivity.
@@ -394,12 +398,12 @@ Lemma run_single_shape r : forall c n r' m tr, honest r ->
   0 < n /\ n <= fst m /\ snd m = delivered_width r c /\ honest r' /\
   (forall c', delivered_width r' c' = delivered_width r c').
 Proof.
-  induction r as [over nc nj|p nc nj|nc nj file inner IH]; intros c n r' m tr Hh; cbn [run_single].
+  induction r as [over nc nj|p nc nj|nc nj file pend inner IH]; intros c n r' m tr Hh; cbn [run_single].
   - destruct (Z.leb_spec n 0); [discriminate|]. intro E; inversion E; subst. cbn in *. repeat split; try lia; assumption.
   - destruct (Z.leb_spec n 0); [discriminate|]. destruct (cfree c); [discriminate|].
     destruct (get_wavefunction p nc nj c) as [[nc' nj'] tr0]. intro E; inversion E; subst. cbn. repeat split; lia.
   - destruct (Z.leb_spec n 0); [discriminate|].
-    destruct (run_single inner c n) as [[inner' [e|m0]] tr0] eqn:Ei; intro E; inversion E; subst.
+    destruct (run_single inner c n) as [[inner' [e|m0]] tr0] eqn:Ei; [|destruct (cgates c)]; intro E; inversion E; subst.
     destruct (IH c n inner' m tr Hh Ei) as (H1 & H2 & H3 & H4 & H5). cbn [delivered_width honest]. repeat split; assumption.
 Qed.
 
@@ -425,12 +429,13 @@ Lemma run_batch_shape r : forall cs s r' ms tr, honest r ->
   run_batch r cs s = (r', inr ms, tr) ->
   exists ns, validate (List.length cs) s = Some ns /\ Forall2 (served r) (combine cs ns) ms.
 Proof.
-  induction r as [over nc nj|p nc nj|nc nj file inner IH]; intros cs s r' ms tr Hh; cbn [run_batch].
+  induction r as [over nc nj|p nc nj|nc nj file pend inner IH]; intros cs s r' ms tr Hh; cbn [run_batch].
   - destruct (validate (List.length cs) s) as [ns|] eqn:Ev; [|discriminate]. intro E. exists ns. split; [reflexivity|].
     eapply loop_shape; eassumption.
   - destruct (validate (List.length cs) s) as [ns|] eqn:Ev; [|discriminate]. intro E. exists ns. split; [reflexivity|].
     eapply loop_shape; eassumption.
-  - destruct (run_batch inner cs s) as [[inner' [e|ms0]] tr0] eqn:Ei; intro E; inversion E; subst.
+  - destruct (run_batch inner cs s) as [[inner' [e|ms0]] tr0] eqn:Ei;
+      [|destruct (record_batch (combine cs ms0)) as [recs [|]]]; intro E; inversion E; subst.
     destruct (IH cs s inner' ms tr Hh Ei) as (ns & Hv & Hf). exists ns. split; [exact Hv|exact Hf].
 Qed.
 
@@ -459,18 +464,18 @@ Qed.
 Lemma dist_results_shape r : forall c n r' w tr,
   step r (Dist c (Some n)) = (r', ODist w, tr) -> 0 < n /\ w = delivered_width r c.
 Proof.
-  cbn [step]. induction r as [over nc nj|p nc nj|nc nj file inner IH]; intros c n r' w tr; cbn [dist].
+  cbn [step]. induction r as [over nc nj|p nc nj|nc nj file pend inner IH]; intros c n r' w tr; cbn [dist].
   - cbn [run_single]. destruct (Z.leb_spec n 0); [discriminate|]. intro E; inversion E; subst. split; [lia|reflexivity].
   - cbn [run_single]. destruct (Z.leb_spec n 0); [discriminate|]. destruct (cfree c); [discriminate|].
     destruct (get_wavefunction p nc nj c) as [[nc' nj'] tr0]. intro E; inversion E; subst. split; [lia|reflexivity].
-  - destruct (dist inner c (Some n)) as [[inner' o] tr0] eqn:Ei. destruct o; intro E; inversion E; subst.
+  - destruct (dist inner c (Some n)) as [[inner' o] tr0] eqn:Ei. destruct o; try destruct (cgates c); intro E; inversion E; subst.
     cbn [delivered_width]. eapply IH. exact Ei.
 Qed.
 
 Lemma delivered_width_register r c :
   0 < cw c \/ (exists over nc nj, leaf_of r = RBase over nc nj) -> delivered_width r c = cw c.
 Proof.
-  induction r as [over nc nj|p nc nj|nc nj file inner IH]; cbn [delivered_width leaf_of]; intro H.
+  induction r as [over nc nj|p nc nj|nc nj file pend inner IH]; cbn [delivered_width leaf_of]; intro H.
   - reflexivity.
   - destruct H as [H|(o & a & b & H)]; [|discriminate]. unfold sampled_width. destruct (Z.eqb_spec (cw c) 0); lia.
   - apply IH. exact H.
@@ -480,7 +485,7 @@ Qed.
 Lemma zero_width_refuted :
   exists r c n r' m tr, honest r /\ step r (Run c n) = (r', OMeas m, tr) /\ snd m <> cw c.
 Proof.
-  exists (RSim (fun _ => true) 0 0), (mkC 0 [] false), 3. do 3 eexists. split; [exact I|]. split; [reflexivity|].
+  exists (RSim (fun _ => true) 0 0), (mkC 0 [] false true), 3. do 3 eexists. split; [exact I|]. split; [reflexivity|].
   cbn. discriminate.
 Qed.
 
@@ -516,63 +521,118 @@ Qed.
 
 Lemma dist_outcome_kind r : forall c on, (exists e, snd (fst (dist r c on)) = OErr e) \/ (exists w, snd (fst (dist r c on)) = ODist w).
 Proof.
-  induction r as [over nc nj|p nc nj|nc nj file inner IH]; intros c on; cbn [dist].
+  induction r as [over nc nj|p nc nj|nc nj file pend inner IH]; intros c on; cbn [dist].
   - destruct on as [n|]; [|left; eexists; reflexivity].
     destruct (run_single (RBase over nc nj) c n) as [[r' [e|m]] tr]; [left|right]; eexists; reflexivity.
   - destruct on as [n|].
     + destruct (run_single (RSim p nc nj) c n) as [[r' [e|m]] tr]; [left|right]; eexists; reflexivity.
     + destruct (get_wavefunction p nc nj c) as [[nc' nj'] tr]. destruct (cfree c); [left|right]; eexists; reflexivity.
   - specialize (IH c on). destruct (dist inner c on) as [[inner' o] tr]. cbn [fst snd] in *.
-    destruct IH as [[e He]|[w Hw]]; subst o; [left|right]; eexists; reflexivity.
+    destruct IH as [[e He]|[w Hw]]; subst o; [left; eexists; reflexivity|].
+    destruct (cgates c); [right|left]; eexists; reflexivity.
 Qed.
 
-Lemma tracker_passthrough nc nj file inner k : tracked_call k ->
-  step (RTrack nc nj file inner) k
+Lemma record_batch_true cms : forall recs, record_batch cms = (recs, true) ->
+  recs = map (fun cm => RecM (fst cm) (snd cm)) cms.
+Proof.
+  induction cms as [|[c m] rest IH]; intros recs; cbn [record_batch].
+  - intro E; inversion E; reflexivity.
+  - destruct (cgates c); [|discriminate]. destruct (record_batch rest) as [rs ok]. intro E; inversion E; subst.
+    cbn [map fst snd]. f_equal. apply IH. reflexivity.
+Qed.
+
+Lemma record_batch_gates cms : Forall (fun cm => cgates (fst cm) = true) cms ->
+  record_batch cms = (map (fun cm => RecM (fst cm) (snd cm)) cms, true).
+Proof.
+  induction 1 as [|[c m] rest Hc _ IH]; [reflexivity|]. cbn [record_batch fst] in *. rewrite Hc, IH. reflexivity.
+Qed.
+
+Lemma combine_gates {B} (cs : list circuit) (ms : list B) : Forall (fun c => cgates c = true) cs ->
+  Forall (fun cm => cgates (fst cm) = true) (combine cs ms).
+Proof.
+  intro H. apply Forall_forall. intros [c m] Hin. apply in_combine_l in Hin. cbn [fst].
+  eapply Forall_forall in H; eassumption.
+Qed.
+
+Lemma tracker_passthrough nc nj file pend inner k : tracked_call k -> serialisable k ->
+  step (RTrack nc nj file pend inner) k
   = (RTrack (nc + fst (own_count k (st_outcome (step inner k)))) (nj + snd (own_count k (st_outcome (step inner k))))
-            (record_for k (st_outcome (step inner k)) file) (st_runner (step inner k)),
+            (file_after k (st_outcome (step inner k)) file pend) (pending_after k (st_outcome (step inner k)) pend)
+            (st_runner (step inner k)),
      st_outcome (step inner k), st_trace (step inner k)).
 Proof.
-  unfold st_outcome, st_runner, st_trace. destruct k as [c n|cs s|c on|c|c opw]; cbn [tracked_call]; intro H; try contradiction; cbn [step].
-  - cbn [run_single]. destruct (Z.leb_spec n 0) as [Hn|Hn].
+  unfold st_outcome, st_runner, st_trace, serialisable, file_after, pending_after.
+  destruct k as [c n|cs s|c on|c|c opw]; cbn [tracked_call call_circuits]; intros H Hs; try contradiction; cbn [step].
+  - inversion Hs as [|x y Hc _]; subst. cbn [run_single]. destruct (Z.leb_spec n 0) as [Hn|Hn].
     + rewrite run_single_invalid by exact Hn. cbn. repeat f_equal; lia.
-    + destruct (run_single inner c n) as [[inner' [e|m]] tr]; cbn; repeat f_equal; lia.
-  - cbn [run_batch]. destruct (run_batch inner cs s) as [[inner' [e|ms]] tr]; cbn; reflexivity.
-  - cbn [dist]. pose proof (dist_outcome_kind inner c on) as Hk.
+    + destruct (run_single inner c n) as [[inner' [e|m]] tr]; [|rewrite Hc]; cbn; repeat f_equal; lia.
+  - cbn [run_batch]. destruct (run_batch inner cs s) as [[inner' [e|ms]] tr]; [cbn; reflexivity|].
+    rewrite (record_batch_gates _ (combine_gates cs ms Hs)). cbn. reflexivity.
+  - inversion Hs as [|x y Hc _]; subst. cbn [dist]. pose proof (dist_outcome_kind inner c on) as Hk.
     destruct (dist inner c on) as [[inner' o] tr]. cbn [fst snd] in *.
-    destruct Hk as [[e He]|[w Hw]]; subst o; cbn; repeat f_equal; lia.
+    destruct Hk as [[e He]|[w Hw]]; subst o; [|rewrite Hc]; cbn; repeat f_equal; lia.
 Qed.
 
-(* the record written for every result of a successful tracked call names its circuit, shot number and key length *)
-Lemma tracker_batch_records nc nj file inner cs s r' ms tr :
-  step (RTrack nc nj file inner) (Batch cs s) = (r', OBatch ms, tr) ->
+(* the records written by a successful tracked batch: whatever was pending, then one per result, in order *)
+Lemma tracker_batch_records nc nj file pend inner cs s r' ms tr :
+  step (RTrack nc nj file pend inner) (Batch cs s) = (r', OBatch ms, tr) ->
   st_outcome (step inner (Batch cs s)) = OBatch ms /\
-  files r' = map (fun cm => RecM (fst cm) (snd cm)) (combine cs ms) :: files (st_runner (step inner (Batch cs s))).
+  files r' = (pend ++ map (fun cm => RecM (fst cm) (snd cm)) (combine cs ms)) :: files (st_runner (step inner (Batch cs s))) /\
+  pendings r' = [] :: pendings (st_runner (step inner (Batch cs s))).
 Proof.
-  pose proof (tracker_passthrough nc nj file inner (Batch cs s) I) as P.
-  remember (step inner (Batch cs s)) as x. rewrite P. intro E. injection E as Hr Ho Ht.
-  split; [exact Ho|]. subst r'. rewrite Ho. reflexivity.
+  unfold st_outcome, st_runner. cbn [step run_batch].
+  destruct (run_batch inner cs s) as [[inner' [e|ms0]] tr0]; [intro E; inversion E|].
+  destruct (record_batch (combine cs ms0)) as [recs [|]] eqn:Er; intro E; inversion E; subst.
+  rewrite (record_batch_true _ _ Er). cbn. repeat split.
+Qed.
+
+(* F28: over a circuit with a non-gate operation the tracker does NOT pass the result through: the wrapped runner
+   executes and returns measurements, the tracker raises AttributeError ... *)
+Lemma tracker_nongate_counterexample :
+  exists nc nj file pend inner k m, tracked_call k /\
+    st_outcome (step inner k) = OMeas m /\ st_trace (step (RTrack nc nj file pend inner) k) <> [] /\
+    n_jobs (st_runner (step inner k)) <> n_jobs inner /\
+    st_outcome (step (RTrack nc nj file pend inner) k) = OErr AttrError.
+Proof.
+  exists 0, 0, [], [], (RSim (fun _ => true) 0 0), (Run (mkC 1 [7] false false) 5), (5, 1).
+  split; [exact I|]. split; [reflexivity|]. split; [discriminate|]. split; [discriminate|reflexivity].
+Qed.
+
+(* ... and the records appended before a failed batch recording appear in the file written by the next,
+   unrelated, successful call: two records for one returned result *)
+Lemma tracker_stale_counterexample :
+  exists r k1 k2 m rec1 rec2,
+    st_outcome (step r k1) = OErr AttrError /\
+    st_outcome (step (st_runner (step r k1)) k2) = OMeas m /\
+    files (st_runner (step (st_runner (step r k1)) k2)) = [[rec1; rec2]] /\ rec1 <> rec2.
+Proof.
+  exists (RTrack 0 0 [] [] (RSim (fun _ => true) 0 0)),
+         (Batch [mkC 1 [0] false true; mkC 1 [7] false false] (One 5)), (Run (mkC 1 [1] false true) 3).
+  do 3 eexists. split; [reflexivity|]. split; [reflexivity|]. split; [reflexivity|discriminate].
 Qed.
 
 (* ------------------------------------------------------------------ valid requests succeed *)
 Lemma leaf_base_leaf_of r : leaf_base r = true <-> exists over nc nj, leaf_of r = RBase over nc nj.
 Proof.
-  induction r as [over nc nj|p nc nj|nc nj file inner IH]; cbn [leaf_base leaf_of].
+  induction r as [over nc nj|p nc nj|nc nj file pend inner IH]; cbn [leaf_base leaf_of].
   - split; [intros _; do 3 eexists; reflexivity|reflexivity].
   - split; [discriminate|intros (o & a & b & H); discriminate].
   - exact IH.
 Qed.
 
-Definition runnable (r : runner) (c : circuit) : Prop := leaf_base r = true \/ cfree c = false.
+Definition runnable (r : runner) (c : circuit) : Prop :=
+  (leaf_base r = true \/ cfree c = false) /\ (is_leaf r = true \/ cgates c = true).
 
 Lemma run_single_succeeds r : forall c n, 0 < n -> runnable r c ->
-  exists r' m tr, run_single r c n = (r', inr m, tr) /\ leaf_base r' = leaf_base r.
+  exists r' m tr, run_single r c n = (r', inr m, tr) /\ leaf_base r' = leaf_base r /\ is_leaf r' = is_leaf r.
 Proof.
-  induction r as [over nc nj|p nc nj|nc nj file inner IH]; intros c n Hn Hr; cbn [run_single].
-  - destruct (Z.leb_spec n 0); [lia|]. do 3 eexists. split; reflexivity.
+  induction r as [over nc nj|p nc nj|nc nj file pend inner IH]; intros c n Hn [Hr Hg]; cbn [run_single].
+  - destruct (Z.leb_spec n 0); [lia|]. do 3 eexists. repeat split.
   - destruct (Z.leb_spec n 0); [lia|]. destruct Hr as [Hr|Hr]; [discriminate|]. rewrite Hr.
-    destruct (get_wavefunction p nc nj c) as [[nc' nj'] tr]. do 3 eexists. split; reflexivity.
-  - destruct (Z.leb_spec n 0); [lia|]. destruct (IH c n Hn Hr) as (inner' & m & tr & E & Hb). rewrite E.
-    do 3 eexists. split; [reflexivity|exact Hb].
+    destruct (get_wavefunction p nc nj c) as [[nc' nj'] tr]. do 3 eexists. repeat split.
+  - destruct (Z.leb_spec n 0); [lia|]. destruct Hg as [Hg|Hg]; [discriminate|].
+    destruct (IH c n Hn) as (inner' & m & tr & E & Hb & _). { split; [exact Hr|right; exact Hg]. }
+    rewrite E, Hg. do 3 eexists. repeat split. exact Hb.
 Qed.
 
 Lemma loop_succeeds cns : forall r, Forall (fun cn => 0 < snd cn /\ runnable r (fst cn)) cns ->
@@ -581,10 +641,10 @@ Proof.
   induction cns as [|[c n] rest IH]; intros r H; cbn [loop].
   - do 3 eexists. reflexivity.
   - inversion H as [|x y [Hn Hr] Hrest]; subst. cbn [fst snd] in *.
-    destruct (run_single_succeeds r c n Hn Hr) as (r1 & m & tr & E & Hb). rewrite E.
+    destruct (run_single_succeeds r c n Hn Hr) as (r1 & m & tr & E & Hb & Hl). rewrite E.
     destruct (IH r1) as (r2 & ms & tr2 & E2).
     { eapply Forall_impl; [|exact Hrest]. intros [c' n'] [Ha Hc]. split; [exact Ha|].
-      unfold runnable in *. rewrite Hb. exact Hc. }
+      unfold runnable in *. rewrite Hb, Hl. exact Hc. }
     rewrite E2. do 3 eexists. reflexivity.
 Qed.
 
@@ -597,10 +657,15 @@ Proof.
     apply loop_succeeds. apply Forall_forall. intros [c n] Hin. cbn [fst snd]. split.
     - apply in_combine_r in Hin. eapply Forall_forall in Hp; eassumption.
     - apply in_combine_l in Hin. eapply Forall_forall in Hc; eassumption. }
-  induction r as [over nc nj|p nc nj|nc nj file inner IH]; intros cs s ns Hv Hc; cbn [run_batch].
+  induction r as [over nc nj|p nc nj|nc nj file pend inner IH]; intros cs s ns Hv Hc; cbn [run_batch].
   - rewrite Hv. eapply Hleaf; eauto.
   - rewrite Hv. eapply Hleaf; eauto.
-  - destruct (IH cs s ns Hv Hc) as (inner' & ms & tr & E). rewrite E. do 3 eexists. reflexivity.
+  - assert (Hi : Forall (runnable inner) cs).
+    { eapply Forall_impl; [|exact Hc]. intros c [Ha [Hb|Hb]]; [discriminate|]. split; [exact Ha|right; exact Hb]. }
+    assert (Hg : Forall (fun c => cgates c = true) cs).
+    { eapply Forall_impl; [|exact Hc]. intros c [_ [Hb|Hb]]; [discriminate|exact Hb]. }
+    destruct (IH cs s ns Hv Hi) as (inner' & ms & tr & E). rewrite E.
+    rewrite (record_batch_gates _ (combine_gates cs ms Hg)). do 3 eexists. reflexivity.
 Qed.
 
 Lemma valid_batch_succeeds r cs s : ~ bad_spec (List.length cs) s -> Forall (runnable r) cs ->
@@ -616,7 +681,7 @@ Qed.
 
 Lemma valid_run_succeeds r c n : 0 < n -> runnable r c -> exists r' m tr, step r (Run c n) = (r', OMeas m, tr).
 Proof.
-  intros Hn Hr. destruct (run_single_succeeds r c n Hn Hr) as (r' & m & tr & E & _). cbn [step]. rewrite E.
+  intros Hn Hr. destruct (run_single_succeeds r c n Hn Hr) as (r' & m & tr & E & _ & _). cbn [step]. rewrite E.
   do 3 eexists. reflexivity.
 Qed.
 
@@ -624,7 +689,7 @@ Qed.
 Lemma reject_unbound r : forall c n, leaf_base r = false -> cfree c = true ->
   run_single r c n = (r, inl ValueError, []).
 Proof.
-  induction r as [over nc nj|p nc nj|nc nj file inner IH]; intros c n Hb Hf; cbn [run_single leaf_base] in *.
+  induction r as [over nc nj|p nc nj|nc nj file pend inner IH]; intros c n Hb Hf; cbn [run_single leaf_base] in *.
   - discriminate.
   - destruct (n <=? 0); [reflexivity|]. rewrite Hf. reflexivity.
   - destruct (n <=? 0); [reflexivity|]. rewrite IH by assumption. reflexivity.
